@@ -19,8 +19,15 @@ def regexes : List (String × String × Bool) := Generated.regex_bench.getD Expe
 
 def rx (i : Nat) : String × Bool := match regexes[i]? with | some e => (e.2.1, e.2.2) | none => ("", false)
 
-/-- `.replace(" ", "").replace("\n", "").replace("\t", "")` -/
-def squeeze (s : String) : String := String.ofList (s.toList.filter (fun c => c != ' ' && c != '\n' && c != '\t'))
+/-- the characters `str.split()` treats as white space (`str.isspace`) -/
+def pySpace (c : Char) : Bool :=
+  let n := c.toNat
+  (0x09 ≤ n && n ≤ 0x0d) || (0x1c ≤ n && n ≤ 0x20) || n == 0x85 || n == 0xa0 || n == 0x1680 || (0x2000 ≤ n && n ≤ 0x200a) ||
+  n == 0x2028 || n == 0x2029 || n == 0x202f || n == 0x205f || n == 0x3000
+
+/-- `"".join(s.split())`: every white-space character is dropped (since the K54 repair; before, only blank, newline and tab
+    were, so a carriage return inside an operand list became part of a net name) -/
+def squeeze (s : String) : String := String.ofList (s.toList.filter (fun c => !pySpace c))
 
 def lower (s : String) : String := String.ofList (s.toList.map Char.toLower)
 def upper (s : String) : String := String.ofList (s.toList.map Char.toUpper)
